@@ -246,6 +246,28 @@ func verdict(c litterCase, dir string, before map[string]fileID, committed map[s
 			}
 		}
 	}
+	// a created table may only stay if its transaction was committed: in a program without explicit
+	// COMMIT/ROLLBACK there is exactly one (automatic) commit, so a surviving created table implies that
+	// every existing table shows its committed contents too
+	single := true
+	for _, st := range c.Stmts {
+		if st == "COMMIT" || st == "ROLLBACK" {
+			single = false
+		}
+	}
+	if single && before != nil {
+		for _, n := range c.Creates {
+			if _, ok := after[n]; !ok {
+				continue
+			}
+			for tn := range c.Tables {
+				want, okc := committed[tn]
+				if a, ok := after[tn]; ok && okc && a.bytes != want && a.bytes == before[tn].bytes {
+					return fw.V("created_table_kept_without_commit:"+what, "%s: created table %s was kept although the transaction was not committed (table %s still has its old contents)", what, n, tn)
+				}
+			}
+		}
+	}
 	if id, ok := after["result.out"]; ok && len(id.bytes) == 0 {
 		return fw.V("empty_out_file_left:"+what, "%s: empty --out file was not removed", what)
 	}
